@@ -1,7 +1,7 @@
 //! MEM domain: peak live heap bytes (counting global allocator) while the real server receives a request body /
 //! sends a response body of a given length. Bodies are generated and discarded on the fly on the client side.
 //!
-//!   MEM dir=<req|resp> framing=<cl|chunked|auto> n=<bytes>
+//!   MEM dir=<req|reqdrain|resp> framing=<cl|chunked|auto> n=<bytes> [ver=0]      (ver=0: an HTTP/1.0 request line)
 //! Output: `M peak=<bytes above the level at the start of the transfer> ok=<0|1> n=<bytes seen by the other side>`
 use crate::{LIVE_BYTES, PEAK_BYTES};
 use khttp::{Headers, Method, Server};
@@ -23,7 +23,9 @@ pub fn mem(arg: &str) -> String {
     let mut dir = "resp";
     let mut framing = "auto";
     let mut n: u64 = 1024;
+    let mut ver = "1.1";
     for w in arg.split_whitespace() {
+        if let Some(v) = w.strip_prefix("ver=") { ver = if v == "0" { "1.0" } else { "1.1" } }
         if let Some(v) = w.strip_prefix("dir=") { dir = v }
         if let Some(v) = w.strip_prefix("framing=") { framing = v }
         if let Some(v) = w.strip_prefix("n=") { n = v.parse().unwrap_or(1024) }
@@ -120,11 +122,13 @@ pub fn mem(arg: &str) -> String {
             seen = n;
         }
     } else {
-        let req = format!("GET /gen/{}/{} HTTP/1.1\r\n\r\n", framing, n);
+        let req = format!("GET /gen/{}/{} HTTP/{}\r\n\r\n", framing, n, ver);
         client.write_all(req.as_bytes()).unwrap();
         client.set_read_timeout(Some(std::time::Duration::from_secs(20))).ok();
         // count 'x' bytes after the head (chunk framing bytes are not 'x'); allocation-free on the client side
         let mut head_done = false;
+        let mut head_bytes: Vec<u8> = Vec::with_capacity(1024); // allocated before the measurement matters: client side, small, fixed
+        let mut chunked = false;
         let mut crlf_state = 0u8; // progress through "\r\n\r\n"
         let mut total_x: u64 = 0;
         let mut tail = [0u8; 5];
@@ -135,6 +139,9 @@ pub fn mem(arg: &str) -> String {
                 Ok(k) => {
                     for &c in &tmp[..k] {
                         if !head_done {
+                            if head_bytes.len() < 1024 {
+                                head_bytes.push(c.to_ascii_lowercase());
+                            }
                             crlf_state = match (crlf_state, c) {
                                 (0, b'\r') => 1,
                                 (1, b'\n') => 2,
@@ -145,6 +152,8 @@ pub fn mem(arg: &str) -> String {
                             };
                             if crlf_state == 4 {
                                 head_done = true;
+                                // which framing the printer chose is read from the head (not assumed from a threshold)
+                                chunked = head_bytes.windows(26).any(|w| w == b"transfer-encoding: chunked");
                             }
                         } else {
                             if c == b'x' {
@@ -154,7 +163,7 @@ pub fn mem(arg: &str) -> String {
                             tail[4] = c;
                         }
                     }
-                    let done = total_x >= n && (framing == "cl" || (framing == "auto" && n < 8192) || &tail == b"0\r\n\r\n");
+                    let done = total_x >= n && (!chunked || &tail == b"0\r\n\r\n");
                     if head_done && done {
                         break 'outer;
                     }
